@@ -99,6 +99,14 @@ def run(ck, rng, tier, prop="C01"):
             Vd, _ = np.linalg.qr(np.array([[rng.gauss(0, 1) for _ in range(m)] for _ in range(m)]))
             X = ((Qd * np.array([1e3, 9e2, 8e-3])) @ Vd.T + np.array([rng.uniform(-3, 3) for _ in range(m)])).tolist()
             ck.count("last component below 1e-10 of the total sum of squares")
+        if c in (11, 12):
+            # a variable that is already centred (stored mean within 1e-12 of 0) among ordinary ones, scaling options 1 and 3
+            n, m, scaling, kind = rng.randint(8, 12), 4, (1, 3)[c - 11], "general"
+            X = gen_data(rng, n, m, kind)
+            Xa_ = np.array(X); j_ = rng.randrange(m)
+            Xa_[:, j_] = Xa_[:, j_] - Xa_[:, j_].mean()
+            X = Xa_.tolist()
+            ck.count("a pre-centred variable")
         if c == 10:
             # the column of largest variance exactly uncorrelated with the dominant direction (a designed data set: x3 = +-1.2
             # alternating, x1 and x2 strongly correlated with each other and exactly uncorrelated with x3): known finding
